@@ -76,7 +76,7 @@ def _path_totals(b):
 
 
 def _owned_ptr_ty(ty):
-    return ty.startswith(('std::sync::Arc<', 'std::rc::Rc<', 'std::sync::Weak<', 'std::rc::Weak<')) or ty in ('T', 'Self')
+    return ty.startswith(('std::sync::Arc<', 'std::rc::Rc<', 'std::sync::Weak<', 'std::rc::Weak<')) or U.is_refcnt_param(ty)
 
 
 def rule_refcnt_siblings(fx, col):
